@@ -20,6 +20,7 @@ import (
 	"go/ast"
 	"go/parser"
 	"go/token"
+	"os"
 	"path/filepath"
 	"sort"
 	"strings"
@@ -101,6 +102,8 @@ func genTableWrites(repo string) (string, error) {
 	type row struct{ pkg, fn, table, shape string }
 	var rows []row
 	var reslices [][2]string
+	var detached [][2]string
+	detachedFns := map[string]bool{}
 	for _, d := range dirs {
 		files, _ := filepath.Glob(filepath.Join(repo, d, "*.go"))
 		sort.Strings(files)
@@ -126,6 +129,33 @@ func genTableWrites(repo string) (string, error) {
 					name = r + "." + name
 				}
 				pkg := filepath.Base(d)
+				// append(T[:i], …) moves elements inside T's backing array whether or not the result is stored in T
+				assigned := map[*ast.CallExpr]bool{}
+				ast.Inspect(fd.Body, func(n ast.Node) bool {
+					if as, ok := n.(*ast.AssignStmt); ok && len(as.Lhs) == len(as.Rhs) {
+						for i, l := range as.Lhs {
+							if full, _, ok := tableOf(fset, l); ok {
+								if c, ok := as.Rhs[i].(*ast.CallExpr); ok && callName(c) == "append" && len(c.Args) > 0 {
+									if se, ok := c.Args[0].(*ast.SliceExpr); ok && nodeText(fset, se.X) == full {
+										assigned[c] = true
+									}
+								}
+							}
+						}
+					}
+					return true
+				})
+				ast.Inspect(fd.Body, func(n ast.Node) bool {
+					if c, ok := n.(*ast.CallExpr); ok && callName(c) == "append" && len(c.Args) > 0 && !assigned[c] {
+						if se, ok := c.Args[0].(*ast.SliceExpr); ok {
+							if _, _, ok := tableOf(fset, se.X); ok {
+								detached = append(detached, [2]string{pkg + "/" + name, nodeText(fset, c)})
+								detachedFns[fd.Name.Name] = true
+							}
+						}
+					}
+					return true
+				})
 				ast.Inspect(fd.Body, func(n ast.Node) bool {
 					switch x := n.(type) {
 					case *ast.SliceExpr:
@@ -201,6 +231,32 @@ func genTableWrites(repo string) (string, error) {
 		fmt.Fprintf(&b, "  (%q, %q, %q, %q)%s\n", r.pkg, r.fn, r.table, r.shape, sep)
 	}
 	b.WriteString("]\n\n")
+	fmt.Fprintf(&b, "/-- every `append(T[:i], …)` on a shared table whose result is not stored back into that table: it still moves\n    elements inside the table's backing array -/\ndef detachedAppends : List (String × String) := %s\n\n", leanPairList(detached))
+	// who calls the functions that contain one (selector or plain calls by name, anywhere under teamserver/cmd and teamserver/pkg)
+	var callers [][2]string
+	if len(detachedFns) > 0 {
+		for _, root := range []string{"teamserver/cmd", "teamserver/pkg"} {
+			filepath.Walk(filepath.Join(repo, root), func(path string, info os.FileInfo, err error) error {
+				if err != nil || info.IsDir() || !strings.HasSuffix(path, ".go") || strings.HasSuffix(path, "_test.go") || strings.Contains(path, "/yaotl/") {
+					return nil
+				}
+				fs2 := token.NewFileSet()
+				af, err := parser.ParseFile(fs2, path, nil, 0)
+				if err != nil {
+					return nil
+				}
+				ast.Inspect(af, func(n ast.Node) bool {
+					if c, ok := n.(*ast.CallExpr); ok && detachedFns[callName(c)] {
+						rel, _ := filepath.Rel(repo, path)
+						callers = append(callers, [2]string{callName(c), rel})
+					}
+					return true
+				})
+				return nil
+			})
+		}
+	}
+	fmt.Fprintf(&b, "/-- calls of the functions that contain a detached append: (function, file) -/\ndef detachedCallers : List (String × String) := %s\n\n", leanPairList(callers))
 	fmt.Fprintf(&b, "/-- every `X[:0]` in those packages -/\ndef reslicesToZero : List (String × String) := %s\n\nend Havoc.Gen.TableWrites\n", leanPairList(reslices))
 	return b.String(), nil
 }
